@@ -127,7 +127,7 @@ impl<'p> Gen<'p> {
             slots.push(Slot::Unit(u));
         }
         self.rng.shuffle(&mut slots);
-        WorldSpec { leaves, units, slots, targets: Vec::new(), gates: 0 }
+        WorldSpec { leaves, units, slots, targets: Vec::new(), gates: 0, tags: 0 }
     }
 
     pub fn pick_cont(&mut self, n: usize) -> ContKind {
@@ -332,6 +332,7 @@ pub fn generate(profile: &str, seed: u64) -> Scenario {
         "C10" => gen_panics(profile, seed, true),
         "C11" => gen_panics(profile, seed, false),
         "C12" => gen_c12(seed),
+        "C16" => gen_c16(seed),
         _ => gen_general(profile, seed, &Params::base()),
     }
 }
@@ -824,4 +825,108 @@ pub fn c11_variants(base: &Scenario, seed: u64) -> Vec<Scenario> {
         }
     }
     out
+}
+
+/// C16: collections that own their values, every constructor and destructor path, writer
+/// threads in between, drop-counting payloads and tags
+pub fn gen_c16(seed: u64) -> Scenario {
+    let mut p = Params::base();
+    p.leaves = (0, 2);
+    p.unit_pct = 20;
+    p.max_units = 1;
+    p.nonacq_pct = 0;
+    p.keyprobe_pct = 0;
+    p.panic_pct = 10;
+    p.rebuild_pct = 0;
+    p.shared_ref_pct = 0;
+    let mut g = Gen::new(seed, &p);
+    let mut w = g.world_base();
+    let mut own_targets: Vec<usize> = Vec::new();
+    let all_rw = w.leaves.iter().all(|k| k.is_rw()) && g.rng.chance(1, 2);
+    let nown = g.rng.range(1, 2);
+    for _ in 0..nown {
+        let n = g.rng.range(0, 4);
+        let mut lids = Vec::new();
+        for _ in 0..n {
+            let kinds: Vec<LeafKind> = LeafKind::ALL.iter().copied().filter(|k| !all_rw || k.is_rw()).collect();
+            w.leaves.push(*g.rng.pick(&kinds));
+            lids.push(w.leaves.len() - 1);
+        }
+        let kind = *g.rng.pick(&[OwnKind::Boxed, OwnKind::Retry, OwnKind::Owned, OwnKind::Ref]);
+        let mut ctors = vec![Ctor::New, Ctor::From, Ctor::FromIter];
+        if kind != OwnKind::Owned {
+            ctors.push(Ctor::TryNew);
+        }
+        if matches!(kind, OwnKind::Retry | OwnKind::Owned) && n > 0 {
+            ctors.push(Ctor::NewThenExtend(g.rng.range(1, n)));
+        }
+        let ctor = *g.rng.pick(&ctors);
+        let cont = g.pick_cont(n);
+        let poison = kind != OwnKind::Ref && g.rng.chance(1, 4);
+        w.targets.push(TSpec::Own { kind, cont, leaves: lids, ctor, poison });
+        own_targets.push(w.targets.len() - 1);
+    }
+    // reference collections over the arena, with drop-counting tags on their members; some
+    // of them contain a duplicate and are rejected by the checked constructor
+    let all = Gen::elems_of(&w);
+    let mut tags = 0usize;
+    if !all.is_empty() {
+        for _ in 0..g.rng.range(0, 2) {
+            let mut es = g.random_subset(&all, (1, 3));
+            if g.rng.chance(1, 2) {
+                let d = es[g.rng.below(es.len())].clone();
+                es.push(d);
+                g.rng.shuffle(&mut es);
+            }
+            let members: Vec<TSpec> = es
+                .iter()
+                .map(|e| {
+                    let inner = match e { Elem::Leaf(l) => TSpec::Leaf(*l), Elem::Unit(u) => TSpec::Unit(*u) };
+                    tags += 1;
+                    TSpec::Tagged(tags - 1, Box::new(inner))
+                })
+                .collect();
+            let kind = *g.rng.pick(&[CollKind::Boxed, CollKind::Ref, CollKind::Retry]);
+            let cont = g.pick_cont(members.len());
+            w.targets.push(TSpec::Coll { kind, cont, members, poison: kind != CollKind::Ref && g.rng.chance(1, 5) });
+        }
+    }
+    w.tags = tags;
+    let nthreads = g.rng.range(1, 3);
+    let mut threads: Vec<Vec<Step>> = Vec::new();
+    for ti in 0..nthreads {
+        let mut steps = Vec::new();
+        for _ in 0..g.rng.range(0, 3) {
+            let t = g.rng.below(w.targets.len());
+            if matches!(w.targets[t], TSpec::Coll { .. }) && w.has_dup(&w.targets[t]) {
+                // rejected at construction: construct it again privately (constructor path with tags)
+                steps.push(Step::NonAcq(NonAcqOp::Construct, t));
+                continue;
+            }
+            let mut a = g.acq(&w, t);
+            a.rebuild = false;
+            // favour writes: the round trip must reflect them
+            let nflat = w.flatten(&w.targets[t], None).len();
+            if nflat > 0 && !a.api.is_read() {
+                a.body.push(BodyOp::Write(g.rng.below(nflat)));
+            }
+            steps.push(Step::Acquire(a));
+        }
+        if ti > 0 {
+            steps.push(Step::GateOpen(ti - 1));
+        }
+        threads.push(steps);
+    }
+    // thread 0 destroys the owning collections once every writer is done
+    for gi in 0..nthreads - 1 {
+        threads[0].push(Step::GateWait(gi));
+    }
+    for &t in &own_targets {
+        let d = *g.rng.pick(&[Dtor::Drop, Dtor::IntoChild, Dtor::IntoInner, Dtor::IntoIter, Dtor::GetMut, Dtor::ChildMut]);
+        threads[0].push(Step::Destroy(t, d));
+    }
+    w.gates = nthreads.saturating_sub(1).max(1);
+    let mut cfg = g.cfg(60);
+    cfg.faults.try_refuse_pct = 0;
+    Scenario { world: w, program: Program { threads }, cfg, profile: "C16".into() }
 }
